@@ -62,6 +62,14 @@ claim('C02',
       'property statement.',
       'symbolic width typing of Gell-Mann coefficient vectors against the record layout [S|A|D|I]; exact polynomial parameter counts',
       'DESIGN.md 4 (W, G), 5 C02')
+claim('C15',
+      'Decides ONE clause: "a batch is converted element-wise whatever mixture of generic and degenerate rotations it contains" - '
+      'by abstract interpretation of the Euler-angle extraction over the index-space lattice {Full, Masked(m), Scalar, Unknown}: '
+      'every elementwise operation and every masked store stays in one index space (MS1). Angle recovery at the gimbal points '
+      '(the arccos sign loss), the SU(2)->SO(3) homomorphism, Wigner-d and Clebsch-Gordan relations are value-level and NOT decided.',
+      'Narrow claim. Trusted: which parameters are full-length batch arrays (table MS1_FUNCS).',
+      'structured forward abstract interpretation over a boolean-mask index-space lattice',
+      'DESIGN.md 4 (MS1), 5 C15')
 claim('C16',
       'Decides the layout clauses: the basis stacking order, gellmann_matrix arms, analysis concat order and synthesis slices / '
       'off-diagonal placement of numqi.gellmann agree with each other and with the documented order in both backends (G1); every '
@@ -114,7 +122,7 @@ claim('C19',
       'abstract interpretation of literal straight-line gate programs over the Pauli tableau domain; finite exhaustive enumeration of errors below d',
       'DESIGN.md 4 (Q), 5 C19')
 
-for _pid in ['C06', 'C08', 'C12', 'C13', 'C15']:
+for _pid in ['C06', 'C08', 'C12', 'C13']:
     na(_pid, 'static rules for this property are designed (DESIGN.md 5) but not yet implemented in this revision; not claimed until they are')
 na('C09', 'bijectivity/counting of the Sp(2n,F2) indexing and the transvection lemma are properties of runtime bit vectors under data-dependent branching; no code-shape clause of substance')
 na('C14', 'group axioms of computed Cayley tables, partition and tableau counts are value-level combinatorics; only a 4x4 literal is visible statically')
